@@ -167,8 +167,9 @@ def r09a(P, R):
     from tsrules import nulltable_top_down
     from facts import AnchorMissing
     wrap = P.fn(PR + "ts_types::type_to_ts_type::get_ts_type_of_type")
-    helpers = [f for f in P.fns.values() if f.path.startswith(PR + "ts_types::type_to_ts_type::") and f.path != wrap.path and f.kind == "Fn"
-               and "::{closure" not in f.path]
+    # the helper by role: the other function or associated function of the converter's module that dispatches on the GraphQL `Type`
+    helpers = [f for f in P.fns.values() if f.path.startswith(PR + "ts_types::type_to_ts_type::") and f.path != wrap.path and f.kind in ("Fn", "AssocFn")
+               and "::{closure" not in f.path and not f.derived and matches_on(f, "Type")]
     if len(helpers) != 1:
         raise AnchorMissing("nullability helper of get_ts_type_of_type: %s" % [h.path for h in helpers])
     impl = helpers[0]
@@ -213,7 +214,7 @@ def _field_nodes(e):
     return out
 
 
-def trace_tags(pv, e, ftags, _seen=None):
+def trace_tags(pv, e, ftags, _seen=None, names=()):
     """literal tags reaching expression `e`: tags put on locals (("armlit", L) extra atoms) and tags of struct fields (`ftags`:
     (adt, field) -> literals) that `e` projects — following local bindings, but *field-sensitively*: a projection `x.f` of a tagged
     field contributes the tags of f only, not everything `x` was built from; inlined callee bodies are entered only through the
@@ -228,6 +229,9 @@ def trace_tags(pv, e, ftags, _seen=None):
         if not isinstance(n, dict):
             continue
         k = n.get("k")
+        if k == "Lit" and n.get("lk") == "str" and n.get("v") in names:
+            out.add(n["v"])   # the name is passed as a literal (look-up by name: `arg("resolverInput")`)
+            continue
         if k == "Field" and n.get("adt") and (norm(n["adt"]), n["field"]) in ftags:
             out |= ftags[(norm(n["adt"]), n["field"])]
             continue
@@ -239,7 +243,7 @@ def trace_tags(pv, e, ftags, _seen=None):
             for src, extra in pv.src.get(lid, []):
                 out |= {x[1] for x in extra if x[0] == "armlit"}
                 if src is not None:
-                    out |= trace_tags(pv, src, ftags, _seen)
+                    out |= trace_tags(pv, src, ftags, _seen, names)
             continue
         if k == "Closure":
             st.append(n.get("body"))
@@ -272,6 +276,29 @@ def scalar_target_table(P, g):
                 leaves = {(LEAF[a], f) for a, f in _field_nodes(fld["e"]) if a in LEAF}
                 view.setdefault((norm(n["adt"]), fld["name"]), {}).setdefault(variant, set()).update(x[1] for x in leaves if x[0] == variant)
     table, found = {}, 0
+    ALL = ("ResolverInput", "ResolverOutput", "OperationInput", "OperationOutput")
+    # one flat `match (config, target)`: each arm names the target(s) in its tuple pattern and projects a field of the payload
+    for m in gi.walk():
+        if m.get("k") != "Match" or m.get("src") != "Normal" or m["scrut"].get("k") != "Tup":
+            continue
+        it = [j for j, e in enumerate(m["scrut"]["es"]) if peel_ty(e.get("t")).endswith("::TypeTarget")]
+        if len(it) != 1:
+            continue
+        hit = False
+        for arm in m["arms"]:
+            pat = arm["pat"]
+            while pat.get("k") in ("Ref", "Deref", "Box"):
+                pat = pat["p"]
+            if pat.get("k") != "Tuple" or len(pat.get("ps", [])) != len(m["scrut"]["es"]) or "guard" in arm:
+                continue
+            tv, catch = arm_variants({"arms": [{"pat": pat["ps"][it[0]]}]})
+            targets = ALL if catch else sorted(tv)
+            for x in _field_nodes(arm["body"]):
+                if x[0] in LEAF:
+                    for t in targets:
+                        table.setdefault((LEAF[x[0]], t), set()).add(x[1])
+                    hit = True
+        found += 1 if hit else 0
     for i, (m, _) in enumerate(gi.nodes()):
         if m.get("k") != "Match" or m.get("src") != "Normal" or not peel_ty(m["scrut"].get("t")).endswith("::TypeTarget"):
             continue
@@ -368,21 +395,45 @@ def r09b(P, R):
                         elif asg["l"].get("k") == "Field" and asg["l"].get("adt"):
                             ftags.setdefault((norm(asg["l"]["adt"]), asg["l"]["field"]), set()).add(lit)
         pvd._memo = {}
-        ctor = [n for n in gs.walk() if n.get("k") == "Struct" and "rest" not in n and norm(n.get("adt", "")).endswith("SeparateScalarTypeConfig")]
-        R.floor("R09-b", "directive-typed scalar construction", len(ctor), 1)
         want = {"resolver_input": "resolverInput", "resolver_output": "resolverOutput", "operation_input": "operationInput", "operation_output": "operationOutput"}
-        for c in ctor:
-            for fld in c["fields"]:
-                if fld["name"] not in want:
+        SEP = CFG + "scalar_type::SeparateScalarTypeConfig"
+        # construction sites: struct literals in get_scalar_types (helpers of the crate inlined), and calls of a workspace constructor
+        # function of the config struct — its parameters reach the fields *by position*, the call site passes values *by position*:
+        # two tables that must agree.  -> [{field: expression in get_scalar_types}]
+        ctor = [{fld["name"]: fld["e"] for fld in n["fields"]} for n in gs.walk()
+                if n.get("k") == "Struct" and "rest" not in n and norm(n.get("adt", "")) == SEP]
+        for c in gs.walk():
+            if c.get("k") not in ("Call", "MethodCall") or "inl" in c:
+                continue
+            g = P.fns.get(call_name(c) or "")
+            if g is None or g.derived or peel_ty(g.sig_output).split("<")[0] != SEP:
+                continue
+            from prov import canon_params
+            pvg = Prov(g)
+            pnames = canon_params(g)
+            args = ([c["recv"]] if c.get("k") == "MethodCall" else []) + c["args"]
+            for lit in (n for n in g.walk() if n.get("k") == "Struct" and "rest" not in n and norm(n.get("adt", "")) == SEP):
+                site = {}
+                for fld in lit["fields"]:
+                    ps = [x[1] for x in pvg.atoms(fld["e"]) if x[0] == "param"]
+                    if len(ps) == 1 and ps[0] in pnames and pnames.index(ps[0]) < len(args):
+                        site[fld["name"]] = args[pnames.index(ps[0])]
+                    else:
+                        site[fld["name"]] = None
+                ctor.append(site)
+        R.floor("R09-b", "directive-typed scalar construction", len(ctor), 1)
+        for site in ctor:
+            for name, e in site.items():
+                if name not in want:
                     continue
-                lits = trace_tags(pvd, fld["e"], ftags)
+                lits = trace_tags(pvd, e, ftags, names=set(want.values())) if e is not None else set()
                 if not lits:
-                    R.undecided("R09-b", "directive-arg:" + fld["name"], "the value of SeparateScalarTypeConfig.%s was not traced back to an arm of a "
-                                "match over the directive's argument names" % fld["name"], loc=gs.loc())
+                    R.undecided("R09-b", "directive-arg:" + name, "the value of SeparateScalarTypeConfig.%s was not traced back to a directive argument "
+                                "name (an arm of a match over the names, or a look-up by literal name)" % name, loc=gs.loc())
                     continue
-                R.check("R09-b", "directive-arg:" + fld["name"], lits == {want[fld["name"]]}, "%s <- @nitrogql_ts_type(%s:)" % (fld["name"], want[fld["name"]]),
+                R.check("R09-b", "directive-arg:" + name, lits == {want[name]}, "%s <- @nitrogql_ts_type(%s:)" % (name, want[name]),
                         "SeparateScalarTypeConfig.%s is filled from directive argument %s (expected `%s`): send and receive types of directive-typed "
-                        "scalars are swapped" % (fld["name"], sorted(lits), want[fld["name"]]), loc=gs.loc())
+                        "scalars are swapped" % (name, sorted(lits), want[name]), loc=gs.loc())
         # config scalarTypes take precedence over the directive: `config.or(directive)`
         SOPTS = (SOPT, "scalar_types")
 
@@ -476,16 +527,48 @@ def declared_type_direct(P, R, rule, f, adt, tag):
             R.undecided(rule, key, "%s: the type %s was not traced back to `%s.type`" % (f.path, what, adt.split("::")[-1]), loc=f.loc())
 
 
+def member_type_pure(P, R, rule, f, adt, tag):
+    """The TypeScript type given to a member (variable, input field, argument) is a function of the member's *declared type* (and of
+    printer options) only: the expression that becomes the member's type — the `type` of an ObjectField literal, or the TSType
+    component of a (key, type, description) tuple — must not depend on another field of the same definition (its default value, its
+    directives, ..).  Name and description legitimately flow into the other components.  `f` is looked at with helpers inlined."""
+    require_fields(P, (adt, "type"))
+    f = inl(P, f)
+    pv = Prov(f)
+    TS = PR + "ts_types::TSType"
+    exprs = []
+    for n in f.walk():
+        if n.get("k") == "Struct" and "rest" not in n and norm(n.get("adt", "")).endswith("ts_types::ObjectField"):
+            exprs += [y["e"] for y in n["fields"] if y["name"] == "type"]
+        elif n.get("k") == "Tup":
+            exprs += [e for e in n.get("es", []) if peel_ty(e.get("t")) == TS]
+    n_members = 0
+    for e in exprs:
+        a = pv.atoms(e)
+        fields = {(x[1], x[2]) for x in a if x[0] == "field"}
+        if (adt, "type") not in fields:
+            continue   # some other object type built by the function
+        n_members += 1
+        extra = sorted(x[1] for x in fields if x[0] == adt and x[1] != "type")
+        R.check(rule, "member-type-pure:" + tag, not extra, "the member's TypeScript type is computed from its declared type only",
+                "%s: the TypeScript type of a member also depends on `%s.%s`: two members with the same declared type get different types (a "
+                "default value or directive changes nullability/shape of the declared input type)" % (f.path, adt.split("::")[-1], "`, `".join(extra)), loc=f.loc())
+    if not n_members:
+        R.undecided(rule, "member-type-pure:" + tag, "no member type deriving from `%s.type` was found in %s or its helpers" % (adt.split("::")[-1], f.path), loc=f.loc())
+
+
 def r09c(P, R):
     def variables():
         f = P.fn(PR + "operation_type_printer::type_printer::get_type_for_variable_definitions")
         coupling(P, R, "R09-c", f, OPT, "allow_undefined_as_optional_input", "variables", (A + "variable::Variable", "name"))
         declared_type_direct(P, R, "R09-c", f, A + "variable::VariableDefinition", "variables")
+        member_type_pure(P, R, "R09-c", f, A + "variable::VariableDefinition", "variables")
 
     def input_objects():
         g = P.fn("<" + A + "type_system::InputObjectTypeDefinition as " + PR + "schema_type_printer::type_printer::TypePrinter>::print_type")
         coupling(P, R, "R09-c", g, SOPT, "input_nullable_field_is_optional", "input-object", (A + "type_system::InputValueDefinition", "name"))
         declared_type_direct(P, R, "R09-c", g, A + "type_system::InputValueDefinition", "input-object")
+        member_type_pure(P, R, "R09-c", g, A + "type_system::InputValueDefinition", "input-object")
         all_elements(P, R, "R09-c", inl(P, g), A + "type_system::InputObjectTypeDefinition", "fields", "input fields")
 
     def enums():
@@ -520,6 +603,8 @@ def r09d(P, R):
             "scalar_types": ("GenerateTypeConfig", "scalar_types"),
         }, {"schema_metadata_type": "fixed name"}),
     }
+    from c14 import BASE_WIRING
+    designated = {v for (_fc, wiring, _nc) in table.values() for v in wiring.values()} | set(BASE_WIRING.values())
     for adt_path, (fc, wiring, not_configurable) in table.items():
         adt = P.adt(adt_path)
         w = wiring_of(P, fc, adt_path)
@@ -546,25 +631,71 @@ def r09d(P, R):
                 R.undecided("R09-d", key, "kind=anchor-missing: %s" % e, loc=fc.loc())
                 continue
             got = {g for g in w.get(fld, set()) if g[0] != "<assigned>"}
-            R.check("R09-d", key, got == {exp}, "`%s` <- config %s.%s" % (fld, exp[0], exp[1]),
-                    "%s never derives `%s` from config %s.%s (it is wired to %s): the documented option has no effect on this printer"
-                    % (fc.path, fld, exp[0], exp[1], sorted(got) or "nothing"), loc=fc.loc())
-    # config keys accepted by the derived deserialisers (the derives live in anonymous consts: matched by content)
-    accepted = []
+            # a further config leaf feeding the same option is a new key (feature addition) unless it is the key of another option
+            foreign = sorted(g for g in got - {exp} if g in designated)
+            if exp not in got:
+                R.violated("R09-d", key, "%s never derives `%s` from config %s.%s (it is wired to %s): the documented option has no effect on this printer"
+                           % (fc.path, fld, exp[0], exp[1], sorted(got) or "nothing"), loc=fc.loc())
+            elif foreign:
+                R.violated("R09-d", key, "%s derives `%s` from config %s.%s and also from %s, the key of another option: one documented option "
+                           "changes what another one controls" % (fc.path, fld, exp[0], exp[1], foreign), loc=fc.loc())
+            else:
+                R.holds("R09-d", key, "`%s` <- config %s.%s%s" % (fld, exp[0], exp[1], (" (and the additional key(s) %s)" % sorted(got - {exp})) if got - {exp} else ""), loc=fc.loc())
+    # config keys accepted by the derived deserialisers, per config struct (the struct is the Self type of the derived FieldVisitor)
+    import re
+    accepted = {}
     for f in P.fns.values():
-        if f.derived and f.name == "visit_str" and f.path.startswith(("<" + CFG + "config::_", "<" + CFG + "parse_config::_")):
+        if f.derived and f.name == "visit_str" and f.path.startswith("<" + CFG) and " as serde::de::Deserialize>" in (f.self_adt or ""):
+            struct = f.self_adt[1:f.self_adt.index(" as ")]
             ks = frozenset(n.get("v") for n in f.walk() if n.get("k") == "PatExpr" and n.get("lk") == "str")
-            accepted.append(ks)
+            accepted.setdefault(struct, set()).update(ks)
     R.floor("R09-d", "derived config deserialisers", len(accepted), 7)
-    docs = dict(CONFIG_KEYS)
-    docs["(root)"] = {"schema", "documents", "extensions"}
-    docs["extensions"] = {"nitrogql"}
-    docs["extensions.nitrogql"] = {"plugins", "generate"}
-    for struct, keys in sorted(docs.items()):
-        near = sorted(accepted, key=lambda a: -len(a & keys))[0] if accepted else frozenset()
-        R.check("R09-d", "config-keys:" + struct, frozenset(keys) in accepted, "accepted keys %s" % sorted(keys),
-                "no deserialiser accepts exactly the documented keys of %s %s; the closest accepts %s (missing %s, unknown %s): a documented "
-                "option is silently ignored" % (struct, sorted(keys), sorted(near), sorted(keys - near), sorted(near - keys)))
+    docs = {CFG + "config::" + k: (k, v) for k, v in CONFIG_KEYS.items()}
+    docs[CFG + "parse_config::ConfigParser"] = ("(root)", {"schema", "documents", "extensions"})
+    docs[CFG + "parse_config::Extensions"] = ("extensions", {"nitrogql"})
+    docs[CFG + "parse_config::NitrogqlConfigParser"] = ("extensions.nitrogql", {"plugins", "generate"})
+    # who reads a config field: any non-derived function outside the config crate's own tests
+    readers = {}
+    for f in P.fns.values():
+        if f.derived or "::tests" in f.path:
+            continue
+        for key in field_reads(f):
+            if key[0] and key[0].startswith(CFG):
+                readers.setdefault(key, []).append(f.path)
+
+    def snake(k):
+        return re.sub(r"([A-Z])", lambda m: "_" + m.group(1).lower(), k)
+    for struct, (name, keys) in sorted(docs.items(), key=lambda kv: kv[1][0]):
+        got = accepted.get(struct)
+        if got is None:
+            R.undecided("R09-d", "config-keys:" + name, "no derived deserialiser of `%s` was found; which keys it accepts is not decided" % struct)
+            continue
+        missing = keys - got
+        if missing:
+            R.violated("R09-d", "config-keys:" + name, "the deserialiser of %s does not accept the documented key(s) %s (it accepts %s): a documented "
+                       "option is silently ignored" % (name, sorted(missing), sorted(got)))
+            continue
+        # a key beyond the documented ones is a feature addition; it is correct when its value is used (some code outside the
+        # derives reads the field it is parsed into).  A key that is parsed and then read by nobody has no effect.
+        adt = P.adts.get(struct)
+        fields = set(adt.fields()) if adt is not None and adt.kind == "Struct" else set()
+        dead, unknown = [], []
+        for k in sorted(got):
+            fld = snake(k)
+            if fld not in fields:
+                if k not in keys:
+                    unknown.append(k)
+                continue
+            if struct.startswith(CFG + "config::") and not readers.get((struct, fld)):
+                dead.append(k)
+        if dead:
+            R.violated("R09-d", "config-keys:" + name, "config key(s) %s of %s are parsed into `%s` but no function reads that field: the option has no "
+                       "effect on any output" % (dead, name, struct.split("::")[-1]))
+        elif unknown:
+            R.undecided("R09-d", "config-keys:" + name, "accepted key(s) %s of %s are neither documented nor matched to a field of `%s`" % (unknown, name, struct.split("::")[-1]))
+        else:
+            extra = sorted(got - keys)
+            R.holds("R09-d", "config-keys:" + name, "accepts the documented keys %s%s; every key is read by some code" % (sorted(keys), (" and the new key(s) %s" % extra) if extra else ""))
 
 
 RULES = [("R09-a", r09a), ("R09-b", r09b), ("R09-c", r09c), ("R09-d", r09d)]
@@ -575,7 +706,7 @@ EXPLANATION = (
     "ScalarTypeConfig::get_type, @nitrogql_ts_type arguments reach the four fields by name, config overrides directive; (R09-c) "
     "`?` and `| undefined` derive from one flag = option && nullable, for variables and input-object fields; every input field and "
     "enum member is emitted; (R09-d) every option field of the two printers is wired to its config key (or listed as not "
-    "configurable), and the derived deserialisers accept exactly the documented keys. Not decided: denotation of emitted types.")
+    "configurable; an additional new key feeding an option is accepted, the key of another option is not), the derived deserialisers accept every documented key, and every accepted key — documented or new — is parsed into a field that some code reads. Not decided: denotation of emitted types.")
 ASSUMPTIONS = ["documented config keys transcribed from website docs (configuration/options)", "serde derive semantics (rename_all = camelCase)"]
 
 
